@@ -104,8 +104,10 @@ def run_unit(ck, h, m, rng, quick):
                 lines.append("mq enq %d" % rng.choice(sizes))
             elif r < 75:
                 lines.append("mq next")
-            elif r < 90:
+            elif r < 87:
                 lines.append("mq confirm-oldest")
+            elif r < 90:
+                lines.append("mq confirmnewest")
             elif r < 93:
                 lines.append("mq resetwait")
             elif r < 96:
@@ -163,7 +165,7 @@ def run_unit(ck, h, m, rng, quick):
                     if "id=%d " % w[0] not in got + " " or "pid=%d" % w[3] not in got:
                         bad = "next returned `%s`, the oldest waiting entry is id=%d pid=%d" % (got, w[0], w[3])
                     w[1] = 2
-            elif t[1] == "confirmoldest":
+            elif t[1] in ("confirmoldest", "confirmnewest"):
                 got = outs[0] if outs else ""
                 if got.startswith("mqconfirm none"):
                     continue
